@@ -314,18 +314,6 @@ element, an empty count then stands for ones (one per dimension of the data set)
 only count entry above 1 (`InvalidRank` when there are two, `std::out_of_range` for an empty count). The transfer itself is the raw
 one (`da_rd` / `dv_rd` / `da_wr` / `dv_wr`) with that count. -/
 
-def typedCount (how : String) (rank : Nat) (cnt off : Idx) : Except Err Idx :=
-  match how with
-  | "rd3" => if !(cnt.isEmpty || prod cnt == 1) then .error .invalidRank else .ok (if cnt.isEmpty then List.replicate rank 1 else cnt)
-  | "vec" => if cnt.isEmpty then .error .stdOutOfRange else if (cnt.filter (· > 1)).length > 1 then .error .invalidRank else .ok cnt
-  | _ => .ok (if off.isEmpty then List.replicate rank 1 else List.replicate off.length 1)
-
-/-- the size `data_traits<std::vector<T>>::resize` gives the vector -/
-def vecSize (cnt : Idx) : Nat :=
-  match (cnt.zipIdx.filter (·.1 > 1)).getLast? with
-  | some (n, _) => n
-  | none => cnt.headD 0
-
 def retag (p : String) : Out → Out
   | .ok t => .ok (p ++ t)
   | .diff t m => .diff (p ++ t) m
